@@ -395,7 +395,7 @@ PROFILES = {
     "C08": {"cross_pool": 0.4, "override": 0.8, "settings": 0.8, "align": 0.5, "custom_lists": 0.5, "subgroups": 0.4, "missing_key": 0.0, "paths": 0.05},
     "C09": {"override": 0.8, "settings": 0.6, "align": 0.7, "missing_key": 0.0, "paths": 0.05, "max_files": 2},
     "C10": {"classes": 0.9, "missing_key": 0.0, "paths": 0.05, "max_files": 2, "cond": 0.35},
-    "C11": {"partial": 1.0, "single": 0.0, "missing_key": 0.0, "paths": 0.2, "section_order": 0.3, "subgroups": 0.4, "group": 0.35},
+    "C11": {"partial": 1.0, "single": 0.0, "cond": 0.4, "missing_key": 0.0, "paths": 0.2, "section_order": 0.3, "subgroups": 0.4, "group": 0.35},
     "C12": {"dpath": 1.0, "partial": 0.5, "paths": 0.3, "missing_key": 0.0, "group": 0.35, "cond": 0.3},
     "C13": {"header": 0.9, "makerom": 0.5, "classes": 0.5, "missing_key": 0.0, "paths": 0.05, "toplevel": 0.6, "gp": 0.4},
     "C14": {"keep": 0.35, "class_keep": 0.7, "addr_class": 0.6, "group": 0.5, "classes": 0.8, "max_depth": 4, "missing_key": 0.0, "paths": 0.05, "section_order": 0.3, "subgroups": 0.3},
